@@ -68,8 +68,11 @@ CheckSlice(e) ==
     IF e.res = "panic" THEN V("C17", e, FALSE, "from_slice / compose / remove_axes panicked", "slice/panic")
     ELSE LET t == ToT(e.tree)  s == ToT(e.post)  kd == Len(KeepIdx(e.mask)) IN
          /\ V("C17", e, Sane(s) /\ s.dim = kd, "sliced tree is malformed or has the wrong input dimension", "slice/shape")
-         /\ V("C17", e, ~Sane(s) \/ s.dim # kd \/ PwlEq(P0(s), SlicePieces(P0(t), e.mask, e.ref), kd),
-              "from_slice ; compose ; remove_axes is not the restriction of the tree to the slice", "slice/law")
+         /\ V("C17", e, ~Sane(s) \/ s.dim # kd \/ (IF e.prune THEN PwlEqUpToThin(P0(s), SlicePieces(P0(t), e.mask, e.ref), kd) ELSE PwlEq(P0(s), SlicePieces(P0(t), e.mask, e.ref), kd)),
+              "from_slice ; compose ; remove_axes is not the restriction of the tree to the slice", "slice/law" \o (IF e.prune THEN "/pruned" ELSE ""))
+         /\ V("C17", e, ~Sane(s) \/ s.dim # kd \/ e.prune \/ GridAgrees(e, e.q, SlicePieces(P0(t), e.mask, e.ref)),
+              "evaluate() of the sliced tree differs from the restriction at a grid point", "slice/grid")
+         /\ V("C17", e, \A n \in 1..Len(e.grid.vals) : e.grid.vals[n].d # 2, "evaluate() of the sliced tree panicked", "slice/eval-panic")
 
 \* ---------------------------------------------------------------- C01: distillation
 HasHead(layers) == \E j \in 1..Len(layers) : layers[j].k \in {"argmax", "class_char"}
